@@ -78,6 +78,74 @@ fn forge_multisig(w: &World, prog: Pubkey, mint: &Pubkey, attacker: &Pubkey) -> 
     Some((wf, k))
 }
 
+/// The part of a program-owned account that is a *setting* (everything an authority is recorded for), as opposed to trading state:
+/// whirlpools without liquidity / price / tick / owed protocol fees / fee growth / reward timestamp / reward growth; oracles without
+/// their adaptive-fee variables; every other account type entirely.
+fn settings_view(d: &[u8]) -> Vec<u8> {
+    use anchor_lang::Discriminator;
+    let mut v = d.to_vec();
+    if d.len() == crate::decode::WHIRLPOOL_LEN && d[..8] == *whirlpool::state::Whirlpool::DISCRIMINATOR {
+        for (a, b2) in [(49usize, 101usize), (165, 181), (245, 269)] {
+            v[a..b2].fill(0);
+        }
+        for i in 0..3 {
+            let o = crate::decode::OFF_REWARD_INFOS + 128 * i + 112;
+            v[o..o + 16].fill(0);
+        }
+    } else if d.len() >= 8 && d[..8] == *whirlpool::state::Oracle::DISCRIMINATOR {
+        // discriminator 8, whirlpool 32, trade_enable_timestamp 8, constants 18, then variables
+        let o = 8 + 32 + 8 + 18;
+        if v.len() > o {
+            v[o..].fill(0);
+        }
+    }
+    v
+}
+
+/// Instructions nobody's authority is required for (anybody can send them): whatever they do, they must not change a setting of an
+/// existing pool / config / tier / extension / badge / oracle.
+fn permissionless_instructions_leave_settings_alone(r: &Rich, l: &mut Local) -> Result<(), String> {
+    let w = &r.w;
+    let mut list: Vec<(String, Instruction)> = vec![];
+    let pools = [("p0", r.p0), ("p1", r.p1), ("adaptive", r.pa), ("flagged", r.p_flagged)];
+    for (n, p) in pools {
+        list.push((
+            format!("migrate_repurpose_reward_authority_space({n})"),
+            ixb(whirlpool::accounts::MigrateRepurposeRewardAuthoritySpace { whirlpool: w.pools[p].key }, whirlpool::instruction::MigrateRepurposeRewardAuthoritySpace {}),
+        ));
+        for a_to_b in [true, false] {
+            let sp = SwapParams { amount: 1000, threshold: 0, sqrt_price_limit: 0, exact_in: true, a_to_b };
+            list.push((format!("swap_v2({n}) by an outsider"), w.ix_swap_v2(p, r.attacker, &sp)));
+        }
+        let far = array_start(w.pool_state(p).tick_current_index, w.pools[p].tick_spacing) + 7 * 88 * w.pools[p].tick_spacing as i32;
+        list.push((format!("initialize_tick_array({n})"), w.ix_init_tick_array(p, far, false)));
+        list.push((format!("initialize_dynamic_tick_array({n})"), w.ix_init_tick_array(p, far + 88 * w.pools[p].tick_spacing as i32, true)));
+    }
+    for pos in [r.pos_plain, r.pos_te, r.pos_locked, r.pos_other_pool, r.pos_adaptive, r.pos_bundled] {
+        list.push(("update_fees_and_rewards".into(), w.ix_update_fees(pos)));
+    }
+    for (name, ix) in list {
+        let mut c = w.clone();
+        let o = c.exec(&ix);
+        l.count(&format!("permissionless/{}", if o.ok() { "executed" } else { "refused" }));
+        if !o.ok() {
+            continue;
+        }
+        for (k, before) in w.bank.accounts.iter() {
+            if before.owner != WP {
+                continue;
+            }
+            let after = c.bank.accounts.get(k).map(|a| settings_view(&a.data));
+            if after.as_ref() != Some(&settings_view(&before.data)) {
+                let (bv, av) = (settings_view(&before.data), after.unwrap_or_default());
+                let at = bv.iter().zip(av.iter()).position(|(x, y)| x != y);
+                return Err(format!("{name}: an instruction that needs nobody's authority changed a setting of account {k} ({} bytes; first difference at byte {at:?})", before.data.len()));
+            }
+        }
+    }
+    Ok(())
+}
+
 /// instructions for which a one-token delegate is a documented alternative to the holder and nothing else in the
 /// instruction needs the holder (positive control of the delegate path)
 const DELEGATE_POSITIVE: &[&str] = &["increase_liquidity", "decrease_liquidity", "increase_liquidity_v2", "decrease_liquidity_v2", "collect_fees", "collect_fees_v2", "collect_reward"];
@@ -91,6 +159,7 @@ pub fn check_world(spec: &RichSpec, l: &mut Local) -> Result<(), String> {
     let w = &r.w;
     let attacker_key = w.users[r.attacker].key;
     let spec_h = hash_of(spec);
+    permissionless_instructions_leave_settings_alone(&r, l)?;
     for ent in cat.iter().filter(|e| e.auth_idx != usize::MAX) {
         let base = run(w, &ent.ix);
         if !base.ok() {
@@ -316,7 +385,7 @@ pub fn def() -> CheckDef {
                enumerated on every world: baseline call must succeed, then mutants: right key without signature, another key signing with its own token accounts (and with the position / bundle token of its OWN position, and with a forged proof of holding: an SPL Multisig created through the real token program (either one) whose bytes read as a token account with one token of the position's mint), \
                an outsider signing while one program-owned account slot names a sibling object whose recorded authority the outsider is, \
                every other role's authority, delegate approved through the real token program with amount 0 / 1 / 2, position (bundle) token moved to another \
-               holder (old holder must fail; new holder and 1-token delegate are positive controls).  Distinct non-trivial = (instruction, mutant kind, world).",
+               holder (old holder must fail; new holder and 1-token delegate are positive controls); instructions that need nobody's authority (migrate_repurpose_reward_authority_space, outsiders' swaps, tick-array initialisation, update_fees_and_rewards) on every pool incl. one with non-zero control flags must leave the *settings view* of every program account unchanged (whirlpools without trading state, oracles without variables, all other accounts entirely).  Distinct non-trivial = (instruction, mutant kind, world).",
         assumptions: vec!["nsvm runtime as in DESIGN.md §5", "delegate/new-holder acceptance is only demanded for liquidity and collect instructions (others need the holder for unrelated reasons, e.g. closing the token account)"],
         subs: vec![sub("table", 1600, 20_000, rich_spec_strategy, |c: &RichSpec, l: &mut Local| check_world(c, l))],
     }
